@@ -130,6 +130,14 @@ def gen_inputs(run, roman, kata_tab):
         n = rng.below(7)
         ins.append(("kata", "".join(rng.pick(HIRA + "abtz09ーア&+") for _ in range(n))))
         hist["kata"] += 1
+    # every character around the kana blocks that is not a key of the katakana table must come back untouched
+    table_keys = {k for k, _ in kata_tab}
+    for c in list(range(0x3000, 0x3100)) + list(range(0xFF61, 0xFFA0)) + [0x1B000, 0x1B001, 0x4E00, 0x20, 0x7E]:
+        ch = chr(c)
+        if ch not in table_keys:
+            ins.append(("kata", ch))
+            ins.append(("kata", "か" + ch + "き"))
+            hist["kata"] += 2
     return ins, hist
 
 
